@@ -28,6 +28,9 @@ import subprocess
 import sys
 
 from mc.core import Check, h, Stats, VERIF, REPO
+# imported here (not lazily in the workers) so that every forked worker runs the same harness code
+from mc import httph
+from mc.vloop import World, outcome
 
 GUID = b"258EAFA5-E914-47DA-95CA-C5AB0DC85B11"
 KEY_RE = re.compile(r"^[A-Za-z0-9+/]{22}==$")
@@ -399,8 +402,6 @@ def server_expect(hdrs, policy, enabled, advertised):
 
 def run_server_case(hdrs, policy, enabled, namecase="canon"):
     """One connection on the real server; returns observation dict."""
-    from mc.vloop import World
-    from mc import httph
     app = get_app()
     del REC[:]
     data = build_request(hdrs, namecase, "/ws/%s/%d" % (policy, 1 if enabled else 0))
@@ -732,7 +733,6 @@ def client_expect(status_line, hdrs, offered, compress):
 
 
 def run_client_case(status_line, hdrs, offered, compress):
-    from mc.vloop import World, outcome
     import tornado.tcpclient
     import tornado.websocket
     from tornado.iostream import IOStream
@@ -1102,7 +1102,7 @@ class C17(Check):
             advertised |= {"13"}
             exp = server_expect(hdrs, pol, en, advertised)
             obs = run_server_case(hdrs, pol, en, nc)
-            out.append("request:\n" + build_request(hdrs, nc).decode("latin-1"))
+            out.append("request:\n" + build_request(hdrs, nc, "/ws/%s/%d" % (pol, en)).decode("latin-1"))
             out.append("handler: select_subprotocol policy=%s, compression %s" % (pol, "enabled" if en else "disabled"))
             out.append("real response (closed=%r):\n%s" % (obs["closed"], obs["out"].decode("latin-1")))
             out.append("handler calls: %r" % (obs["rec"],))
